@@ -160,11 +160,26 @@ def run_random_case(ctx, kind_, idx):
                 if mode == "weaver_reshaped":
                     n = int(rng.choice([2, 3, 5]))
                     wv.recreate_from_average(n, rfa_class=R.cls(R.ALL[int(rng.integers(0, 6))]))
+                    if rng.integers(0, 2) and len(x) >= 4:
+                        # cut the working series by index: afterwards working and reference span DIFFERENT ranges, so
+                        # "the reference is cut with the same bounds" can no longer be read off the working series
+                        m_ref = len(wv.get_reference()[0])
+                        start = int(rng.integers(0, max(1, m_ref - 2)))
+                        stop = int(rng.integers(start + 2, len(wv.get()[0]) + 1))
+                        wv.truncate_by_index(start, stop)
+                        info["index_cut_first"] = [start, stop]
+                        if len(wv.get()[0]) < 2 or len(wv.get_reference()[0]) < 2:
+                            return
                 wx, wy = (np.array(a).copy() for a in wv.get())
                 rx, ry = (np.array(a).copy() for a in wv.get_reference())
                 l, r, lr, rr, knife = pick_bounds(rng, rx if rng.integers(0, 2) else wx)
                 for arr in (wx, rx):
                     span = float(arr[-1] - arr[0])
+                    la = l * span + float(arr[0]) if lr else l
+                    ra = r * span + float(arr[0]) if rr else r
+                    if not la < ra:          # a (mixed ratio / absolute) range that is empty for one of the two series
+                        ctx.discard("bounds_inadmissible_for_one_of_the_two_series")
+                        return
                     for b, isr in ((l, lr), (r, rr)):
                         if isr:
                             bb = b * span + float(arr[0])
